@@ -189,6 +189,34 @@ pub fn run(ctx: &Ctx) -> CheckOutput {
         }
     }
     for kind in [Kind::Cti, Kind::Net, Kind::CenterOfGravity] {
+        for n in if quick { vec![3usize, 5, 8, 9, 13] } else { (3..=16).chain([20, 33]).collect() } {
+            let spec = Spec::un(kind, n, Spec::echo());
+            let phases = if quick { 3 } else { 4 };
+            jobs.push(Box::new(move || {
+                let mut st = Stats::default();
+                let sink = Sink::new();
+                let d = phase_drivers(n, phases);
+                ref_drivers::<f64>("C06", &spec, &d, &mut st, &sink, &|h, hf, v, out| oracle::<f64>(kind, n, h, hf, v, out));
+                if n <= 9 {
+                    ref_drivers::<Q>("C06", &spec, &phase_drivers(n, 2), &mut st, &sink, &|h, hf, v, out| oracle::<Q>(kind, n, h, hf, v, out));
+                }
+                JobOut { stats: st, viols: sink.take(), samples: vec![json!({"explorer":"LONG","view":spec.name(),"driver":format!("every sequence of <= {} phases from a menu of 8", phases)})] }
+            }));
+        }
+    }
+    for kind in [Kind::Cti, Kind::Net, Kind::CenterOfGravity] {
+        for n in [3usize, 5] {
+            let spec = Spec::un(kind, n, Spec::echo());
+            let len = if quick { 300 } else { 1200 };
+            jobs.push(Box::new(move || {
+                let mut st = Stats::default();
+                let sink = Sink::new();
+                ref_long_cycles::<f64>("C06", &spec, &Z5, 3, len, &mut st, &sink, &|h, hf, v, out| oracle::<f64>(kind, n, h, hf, v, out));
+                JobOut { stats: st, viols: sink.take(), samples: vec![json!({"explorer":"LONG","scalar":"f64","view":spec.name(),"driver":"every Z5 cycle of period<=3","steps":len})] }
+            }));
+        }
+    }
+    for kind in [Kind::Cti, Kind::Net, Kind::CenterOfGravity] {
         for n in if quick { vec![7usize, 9, 12] } else { vec![9, 11, 12, 16, 20] } {
             let spec = Spec::un(kind, n, Spec::echo());
             let depth = if quick { 5 } else { 7 };
